@@ -144,56 +144,63 @@ Proof.
   - apply env_upd_same.
 Qed.
 
-(* ---- ForLoopPT.final_values: start + Max((stop-start)//step - 1, 0)*step ---- *)
-Lemma eval_loop_final_index rho start stop step a o s :
-  int_val rho start a -> int_val rho stop o -> int_val rho step s -> (s <> 0)%Z ->
-  int_val rho (loop_final_index start stop step) (floor_final_index a o s).
+(* ---- ForLoopPT.final_values: start + Max((stop - start - sign(step)) // step, 0) * step ---- *)
+Lemma eval_esign rho step s : int_val rho step s -> int_val rho (esign step) (Z.sgn s).
 Proof.
-  intros (qa & Ea & Ha) (qo & Eo & Ho) (qs & Es & Hs) Hne.
-  unfold loop_final_index, int_val, ev_eq. cbn [eval]. rewrite Ea, Eo, Es. cbn [omap2].
-  assert (Hnz : Qeq_bool qs 0 = false).
-  { apply not_true_iff_false. intros H. apply Qeq_bool_iff in H. rewrite Hs in H. exact (inject_Z_nonzero s Hne H). }
-  rewrite Hnz. cbn [option_map omap2]. change (eval rho e1) with (Some 1). change (eval rho e0) with (Some 0). cbn [omap2].
-  eexists; split; [reflexivity|].
-  assert (Hfl : Qfloor ((qo - qa) / qs) = ((o - a) / s)%Z).
-  { rewrite <- Qfloor_div by assumption. apply Qfloor_comp. rewrite Ha, Ho, Hs, inject_Z_minus. reflexivity. }
-  rewrite Hfl. unfold floor_final_index. rewrite Ha, Hs.
-  rewrite inject_Z_plus, inject_Z_mult. apply Qplus_comp; [reflexivity|]. apply Qmult_comp; [|reflexivity].
-  unfold Qmax. rewrite Qle_bool_minus1. destruct ((o - a) / s - 1 <=? 0)%Z eqn:E.
-  - rewrite Z.max_r by lia. reflexivity.
-  - rewrite Z.max_l by lia. rewrite inject_Z_minus. reflexivity.
+  intros (qs & Es & Hs). unfold esign, int_val, ev_eq. cbn [eval]. rewrite Es. change (eval rho e0) with (Some 0).
+  change (eval rho e1) with (Some 1). cbv iota beta.
+  assert (H1 : Qle_bool qs 0 = (s <=? 0)%Z).
+  { destruct (Qle_bool qs 0) eqn:E, (s <=? 0)%Z eqn:E2; try reflexivity; exfalso.
+    - apply Qle_bool_iff in E. rewrite Hs in E. unfold Qle, inject_Z in E. simpl in E. lia.
+    - assert (Qle_bool qs 0 = true) by (apply Qle_bool_iff; rewrite Hs; unfold Qle, inject_Z; simpl; lia). congruence. }
+  assert (H2 : Qle_bool 0 qs = (0 <=? s)%Z).
+  { destruct (Qle_bool 0 qs) eqn:E, (0 <=? s)%Z eqn:E2; try reflexivity; exfalso.
+    - apply Qle_bool_iff in E. rewrite Hs in E. unfold Qle, inject_Z in E. simpl in E. lia.
+    - assert (Qle_bool 0 qs = true) by (apply Qle_bool_iff; rewrite Hs; unfold Qle, inject_Z; simpl; lia). congruence. }
+  rewrite H1, H2. destruct (s <=? 0)%Z eqn:E1; [destruct (0 <=? s)%Z eqn:E2|].
+  - exists 0. split; [reflexivity|]. assert (s = 0%Z) by lia. subst s. reflexivity.
+  - exists (-(1)). split; [reflexivity|]. rewrite Z.sgn_neg by lia. reflexivity.
+  - exists 1. split; [reflexivity|]. rewrite Z.sgn_pos by lia. reflexivity.
 Qed.
 
-(* under the guard "the step divides the span" the substituted index is the last iteration's *)
-Theorem for_final_correct_guarded rho i start stop step e a o s ks (f : Z -> Q) :
+Lemma eval_loop_final_index rho start stop step a o s :
+  int_val rho start a -> int_val rho stop o -> int_val rho step s -> (s <> 0)%Z ->
+  int_val rho (loop_final_index start stop step) (last_index a o s).
+Proof.
+  intros (qa & Ea & Ha) (qo & Eo & Ho) Hs' Hne. destruct (eval_esign rho step s Hs') as (qg & Eg & Hg).
+  destruct Hs' as (qs & Es & Hs).
+  unfold loop_final_index, int_val, ev_eq. cbn [eval]. fold (esign step). rewrite Ea, Eo, Es. cbn [eval] in Eg. rewrite Eg. cbn [omap2].
+  assert (Hnz : Qeq_bool qs 0 = false).
+  { apply not_true_iff_false. intros H. apply Qeq_bool_iff in H. rewrite Hs in H. exact (inject_Z_nonzero s Hne H). }
+  rewrite Hnz. cbn [option_map omap2]. change (eval rho e0) with (Some 0). cbn [omap2].
+  eexists; split; [reflexivity|].
+  assert (Hfl : Qfloor ((qo - qa - qg) / qs) = ((o - a - Z.sgn s) / s)%Z).
+  { rewrite <- Qfloor_div by assumption. apply Qfloor_comp. rewrite Ha, Ho, Hs, Hg, !inject_Z_minus. reflexivity. }
+  rewrite Hfl. unfold last_index. rewrite Ha, Hs.
+  rewrite inject_Z_plus, inject_Z_mult. apply Qplus_comp; [reflexivity|]. apply Qmult_comp; [|reflexivity].
+  unfold Qmax. pose proof (Qle_bool_inject_Z ((o - a - Z.sgn s) / s) 0) as Hb. change (inject_Z 0) with 0 in Hb. rewrite Hb.
+  destruct ((o - a - Z.sgn s) / s <=? 0)%Z eqn:E.
+  - rewrite Z.max_r by lia. reflexivity.
+  - rewrite Z.max_l by lia. reflexivity.
+Qed.
+
+(* the substituted index is the last iteration's, for every non-empty range *)
+Theorem for_final_correct rho i start stop step e a o s ks (f : Z -> Q) :
   int_val rho start a -> int_val rho stop o -> int_val rho step s ->
-  py_range a o s = Some ks -> ks <> [] -> ((o - a) mod s = 0)%Z ->
+  py_range a o s = Some ks -> ks <> [] ->
   body_rule rho i e ks f ->
   ev_eq rho (ELet [(i, loop_final_index start stop step)] e) (f (last ks 0%Z)).
 Proof.
-  intros Ha Ho Hs Hr Hne Hdiv Hbody.
+  intros Ha Ho Hs Hr Hne Hbody.
   destruct (py_range_spec _ _ _ _ Hr) as (Hsn & _ & _).
   destruct (eval_loop_final_index rho start stop step a o s Ha Ho Hs Hsn) as (q & Eq & Hq).
   unfold ev_eq. cbn [eval]. rewrite Eq.
-  rewrite (floor_final_index_ok a o s ks Hr Hne Hdiv) in Hq.
+  rewrite (last_index_ok a o s ks Hr Hne) in Hq.
   apply (Hbody (last ks 0%Z) q); [|exact Hq| |].
   - destruct ks; [congruence|]. apply (@exists_last _ (z :: ks)) in Hne as (l' & x & Hl).
     rewrite Hl. rewrite last_last. apply in_or_app. right. left. reflexivity.
   - intros x Hx. apply env_upd_other. exact Hx.
   - apply env_upd_same.
-Qed.
-
-(* without the guard it is not: range(0, 5, 2) with a body that returns its index *)
-Theorem for_final_refuted :
-  exists rho i start stop step e a o s ks (f : Z -> Q),
-    int_val rho start a /\ int_val rho stop o /\ int_val rho step s /\ py_range a o s = Some ks /\ ks <> [] /\
-    body_rule rho i e ks f /\
-    ~ ev_eq rho (ELet [(i, loop_final_index start stop step)] e) (f (last ks 0%Z)).
-Proof.
-  exists env_empty, 1%N, (EC 0), (EC 5), (EC 2), (EV 1%N), 0%Z, 5%Z, 2%Z, [0; 2; 4]%Z, inject_Z.
-  repeat split; try (eexists; split; reflexivity); try discriminate.
-  - intros k q rho' _ Hq _ Hi. exists q. split; [exact Hi|exact Hq].
-  - intros (v & Ev & Hv). vm_compute in Ev. inversion Ev; subst v. vm_compute in Hv. discriminate.
 Qed.
 
 (* ---- p_int is additive over concatenation (sequence / repetition / loop unrolling on the specification side) ---- *)
